@@ -148,16 +148,6 @@ theorem quantize_shape (data : Bytes) (hb : ∀ x ∈ data, x < 256) :
   · exact hb x (List.mem_of_mem_take (List.mem_of_mem_take h))
   · rw [List.mem_replicate] at h; omega
 
-theorem shape_setUnit {r : Raw} (hs : ShapeOk r) (i : Nat) (b : Bytes) (hl : b.length = 512) (hb : ∀ x ∈ b, x < 256) :
-    ShapeOk (setUnit r i b) := by
-  apply shapeOk_of_units
-  intro j hj
-  rw [setUnit_size] at hj
-  by_cases hji : i = j
-  · subst hji
-    unfold unitAt; rw [setUnit_self _ _ _ hj]; exact ⟨hl, hb⟩
-  · rw [unitAt_setUnit_other _ _ _ _ hji]; exact hs.unit hj
-
 /-- **reserve the first free block** (`get_available_block` + `allocate_block`) -/
 theorem astate_reserve {d2 dc : Disk} {bm cnt : Nat} {Al : List Nat} (c : LoopCtx d2 bm cnt) (a : AState d2 bm cnt dc Al)
     (hpos : Al.length < (freeBlocks (effBuf d2 bm cnt) d2.total).length) :
